@@ -87,7 +87,7 @@ def _patch_props(path):
     if os.path.basename(path) == 'patch.diff' and os.path.exists(meta):
         m = json.load(open(meta))
         p = m.get('property')
-        props = p if isinstance(p, list) else [p]
+        props = p if isinstance(p, list) else str(p).replace(',', ' ').split()
     else:
         for line in open(path, encoding='utf-8'):
             mm = re.match(r'#\s*property:\s*(.*)', line)
